@@ -303,13 +303,15 @@ class Body:
 
 
 class Mir:
-    def __init__(self, path):
+    def __init__(self, path, rename=()):
         self.fns = {}
         self.adts = {}
         self.impls = []
         self.statics = []
         with open(path) as fh:
             for line in fh:
+                for rx_, to_ in rename:         # private functions that were renamed get their pinned names back (see restore_private_fn_names)
+                    line = rx_.sub(to_, line)
                 o = json.loads(line)
                 k = o["k"]
                 if k == "fn":
@@ -1104,6 +1106,220 @@ def normalise_logic(syn):
                 cnt += 1
     return cnt
 
+
+# ------------------------------------------------------------------------------------------------------------------------
+# Renamed locals.  Rules quote local names of today's tree in conditions, keys and messages.  A function whose parameters, `let`s,
+# pattern bindings and closure parameters were merely renamed is the same function: its tree with every locally bound name replaced by
+# the number of its first occurrence (`v0`, `v1`, ..) is identical to that of the pinned tree - and only then (using `right` where `left`
+# was used changes that form).  For such a function the pinned names are put back on loading (tables/local_names.json holds, per
+# function, the hash of that form and the names in order of first occurrence).
+def _alpha_form(fn):
+    """(hash of the tree with every binding occurrence numbered in source order and every use replaced by the number of the latest
+    binding of its name, [name of each binding, by number], [(node, key, number) that carry a name])"""
+    import hashlib
+    bound = set()
+    roots = [[i_.get("pat") for i_ in fn["sig"]["inputs"]], fn["body"]]
+    for root in roots:
+        for n in walk(root):
+            if n.get("k") == "pident":
+                bound.add(n["name"])
+    latest, names, carriers = {}, [], []
+    h = hashlib.sha256()
+    PRI = {"e": -1, "init": -1, "iter": -1, "c": -1, "recv": -1, "l": -1, "f": -1, "pat": 1, "params": 1, "guard": 2, "body": 3, "then": 3, "else": 3}
+
+    def visit(n):
+        if isinstance(n, list):
+            h.update(b"[")
+            for x in n:
+                visit(x)
+            h.update(b"]")
+            return
+        if not isinstance(n, dict):
+            h.update(repr(n).encode())
+            return
+        k = n.get("k")
+        name_key = "name" if k == "pident" else ("p" if k == "path" and "::" not in n.get("p", "::") and n.get("p") in bound else None)
+        h.update(b"{")
+        for kk in sorted(n, key=lambda x_: (PRI.get(x_, 0), x_)):       # what is evaluated before a binding comes before it, its scope after it
+            if kk == "ln":
+                continue
+            h.update(kk.encode())
+            if kk == name_key:
+                nm = n[kk]
+                if k == "pident":
+                    latest[nm] = len(names)
+                    names.append(nm)
+                num = latest.get(nm)
+                if num is None:                                         # used before any binding was seen (cannot happen in Rust; keep the name)
+                    h.update(nm.encode())
+                else:
+                    h.update(f"v{num}".encode())
+                    carriers.append((n, kk, num))
+            else:
+                visit(n[kk])
+        h.update(b"}")
+    for root in roots:
+        visit(root)
+    return h.hexdigest()[:24], names, carriers
+
+
+def restore_local_names(syn):
+    """-> {fn qual: {current name: pinned name}} for the functions that differ from the pinned tree by the names of their locals only"""
+    if os.environ.get("VERIF_NO_NORMALISE"):
+        return {}
+    try:
+        table = load_table("local_names.json")["fns"]
+    except Exception:
+        return {}
+    done = {}
+    for f in syn.fns:
+        ent = table.get(f.get("qual") or "")
+        if not ent or not f.get("body"):
+            continue
+        hsh, names, carriers = _alpha_form(f)
+        if hsh != ent["h"] or names == ent["n"] or len(names) != len(ent["n"]):
+            continue
+        for node, key, num in carriers:
+            node[key] = ent["n"][num]
+        done[f["qual"]] = {a: b for a, b in zip(names, ent["n"]) if a != b}
+    return done
+
+
+# Renamed private functions.  Per module (and impl type) the private functions of the pinned tree are listed in source order with the
+# types of their signatures (tables/private_fns.json).  When the current tree has, for a module, the same number of private functions
+# with the same signatures in the same order and some names differ - and the new names are not names of the pinned list - the functions
+# were renamed: the pinned names are put back in the syntactic facts (definitions and calls within the crate) and, as path prefixes, in
+# the MIR facts, so that anchors and review tables keep finding them.  Anything else (a helper added, removed, reordered, a signature
+# changed) leaves the names as they are.
+def _sig_key(f):
+    tys = [re.sub(r"\s+", "", str(i_.get("ty", ""))) for i_ in f["sig"]["inputs"]]
+    return "(" + ",".join(tys) + ")->" + re.sub(r"\s+", "", str(f["sig"].get("ret", "")))
+
+
+def _private_groups(syn):
+    groups = defaultdict(list)
+    for f in syn.fns:
+        if f.get("vis", "") == "" and f.get("qual") and not f.get("impl_trait") and f.get("body") is not None and "test" not in f["mod"]:
+            groups[f["mod"] + "|" + (f.get("impl_of") or "").strip()].append(f)
+    for g in groups.values():
+        g.sort(key=lambda f_: f_.get("ln", 0))
+    return groups
+
+
+def restore_private_fn_names(syn):
+    """-> [(module, impl type or '', current name, pinned name)]"""
+    if os.environ.get("VERIF_NO_NORMALISE"):
+        return []
+    try:
+        table = load_table("private_fns.json")["groups"]
+    except Exception:
+        return []
+    out = []
+    for key, fs in _private_groups(syn).items():
+        pinned = table.get(key)
+        if not pinned or len(pinned) != len(fs):
+            continue
+        if [_sig_key(f) for f in fs] != [p_["sig"] for p_ in pinned]:
+            continue
+        pinned_names = {p_["name"] for p_ in pinned}
+        cur_names = {f["name"] for f in fs}
+        pairs = [(f, p_["name"]) for f, p_ in zip(fs, pinned) if f["name"] != p_["name"]]
+        if not pairs or any(f["name"] in pinned_names or old in cur_names for f, old in pairs):
+            continue        # a permutation of known names is a reordering, not a renaming
+        mod_, impl_ = key.split("|")
+        for f, old in pairs:
+            out.append((mod_, impl_, f["name"], old))
+    if not out:
+        return out
+    by_mod = defaultdict(dict)
+    for mod_, impl_, new, old in out:
+        by_mod[mod_][new] = (old, impl_)
+    top = {m_.split("::")[0] for m_ in by_mod}
+    for f in syn.fns:
+        ren = None
+        for m_, r_ in by_mod.items():
+            if f["mod"] == m_ or f["mod"].startswith(m_ + "::"):
+                ren = r_ if ren is None else {**ren, **r_}
+        if ren is None:
+            continue
+        if f["mod"] in by_mod and f["name"] in by_mod[f["mod"]] and (f.get("impl_of") or "").strip() == by_mod[f["mod"]][f["name"]][1] and f.get("vis", "") == "":
+            old = by_mod[f["mod"]][f["name"]][0]
+            f["qual"] = f["qual"][:len(f["qual"]) - len(f["name"])] + old
+            f["name"] = old
+        if not f.get("body"):
+            continue
+        for n in walk(f["body"]):
+            if n.get("k") == "path":
+                last = n["p"].split("::")[-1]
+                if last in ren and (("::" not in n["p"] and not ren[last][1]) or ("::" in n["p"] and n["p"].split("::")[-2] in ("Self", "self", "super", ren[last][1] or "\0"))):
+                    n["p"] = n["p"][:len(n["p"]) - len(last)] + ren[last][0]
+            elif n.get("k") == "mcall" and n["m"] in ren and ren[n["m"]][1]:
+                n["m"] = ren[n["m"]][0]
+    return out
+
+
+# Renamed struct fields (same idea as for private functions): per struct of the pinned tree the fields in order with their types
+# (tables/struct_fields.json).  Same number of fields, same types in the same order, some names unknown to the pinned list and to every
+# other struct: the fields were renamed; the pinned names are put back in field accesses, struct literals and struct patterns of the
+# functions below the struct's module (a private field cannot be named anywhere else) and in the field projections of the MIR facts.
+def restore_field_names(syn):
+    """-> [(struct qual, current name, pinned name)]"""
+    if os.environ.get("VERIF_NO_NORMALISE"):
+        return []
+    try:
+        table = load_table("struct_fields.json")["structs"]
+    except Exception:
+        return []
+    all_names = set()
+    for q, st in syn.structs.items():
+        if "::" in q:
+            all_names |= {n_ for n_, _ in st["fields"]}
+    for fl in table.values():
+        all_names |= {n_ for n_, _ in fl}
+    out = []
+    for q, st in syn.structs.items():
+        if "::" not in q or q not in table:
+            continue
+        pinned, cur = table[q], st["fields"]
+        if len(pinned) != len(cur) or [re.sub(r"\s+", "", t_) for _, t_ in pinned] != [re.sub(r"\s+", "", t_) for _, t_ in cur]:
+            continue
+        pinned_names = {n_ for n_, _ in pinned}
+        pairs = [(c_[0], p_[0]) for c_, p_ in zip(cur, pinned) if c_[0] != p_[0]]
+        if not pairs or any(new in pinned_names for new, _ in pairs):
+            continue
+        # the new name must not be a field name of any other struct (an access `.name` does not say of which struct)
+        others = set()
+        for q2, st2 in syn.structs.items():
+            if "::" in q2 and q2 != q:
+                others |= {n_ for n_, _ in st2["fields"]}
+        if any(new in others for new, _ in pairs):
+            continue
+        for new, old in pairs:
+            out.append((q, new, old))
+    if not out:
+        return out
+    by_mod = defaultdict(dict)
+    for q, new, old in out:
+        by_mod[q.rsplit("::", 1)[0]][new] = old
+        st = syn.structs[q]
+        st["fields"] = [[dict(by_mod[q.rsplit("::", 1)[0]]).get(n_, n_), t_] for n_, t_ in st["fields"]]
+    for f in syn.fns:
+        ren = {}
+        for m_, r_ in by_mod.items():
+            if f["mod"] == m_ or f["mod"].startswith(m_ + "::"):
+                ren.update(r_)
+        if not ren or not f.get("body"):
+            continue
+        for n in walk(f["body"]):
+            k = n.get("k")
+            if k == "field" and n.get("name") in ren:
+                n["name"] = ren[n["name"]]
+            elif k in ("struct", "pstruct") and isinstance(n.get("fields"), list):
+                for fld in n["fields"]:
+                    if isinstance(fld, list) and fld and fld[0] in ren:
+                        fld[0] = ren[fld[0]]
+    return out
+
 class Syn:
     def __init__(self, path):
         with open(path) as fh:
@@ -1114,6 +1330,9 @@ class Syn:
         self.consts = {}
         self.impls = []
         self._index(self.root["items"], None)
+        self.restored_fields = restore_field_names(self)
+        self.restored_fns = restore_private_fn_names(self)
+        self.restored_locals = restore_local_names(self)
         self.renamed_params = canonicalise_params(self)
         self.normalised_nodes = normalise_logic(self)
 
@@ -1494,7 +1713,14 @@ class Facts:
     @property
     def mir(self):
         if self._mir is None:
-            self._mir = Mir(os.path.join(self.dir, "mir.jsonl"))
+            ren = []
+            for mod_, impl_, new, old in getattr(self.syn, "restored_fns", []):
+                # def-paths: `mod::new`, `mod::<impl mod::Type>::new` / `mod::Type::new`
+                ren.append((re.compile(r"(" + re.escape(mod_) + r"::(?:[^\s\"',;()]*?::)?)" + re.escape(new) + r"(?![A-Za-z0-9_])"), r"\g<1>" + old))
+            for q_, new, old in getattr(self.syn, "restored_fields", []):
+                # field projections: `.3:<field>:<path of the struct>:..`
+                ren.append((re.compile(r":" + re.escape(new) + r":(" + re.escape(q_) + r")(?![A-Za-z0-9_])"), ":" + old + r":\g<1>"))
+            self._mir = Mir(os.path.join(self.dir, "mir.jsonl"), ren)
         return self._mir
 
     @property
